@@ -69,7 +69,7 @@ def check_fresh(acc, name, v, via_alias=False):
     acc.ev("first-reading-of-a-new-driver-object")
     if via_alias:
         acc.ev("driver-built-through-its-older-name")
-    s = sim = helper = None
+    s = sim = helper = s2 = helper2 = peek = None
     try:
         _PORT[0] = 3 + (_PORT[0] - 2) % 5          # ports 3..7 in turn: a new object rarely sits where the last one sat
         s = cls(_PORT[0])
@@ -96,10 +96,35 @@ def check_fresh(acc, name, v, via_alias=False):
         acc.checks += 1
         if helper.getDistance() != x or abs(s.getDistance() - x) > 1e-9 * x:
             acc.violation("C17/sim-inverse", f"{name} (new object): after setDistance({x!r}) helper says {helper.getDistance()!r}, sensor {s.getDistance()!r}", case, {})
+            return
+        # a second sensor of the same model on another port, with a helper of its own: each helper remembers its own distance
+        s2 = cls(3 + (_PORT[0] - 2) % 5)
+        helper2 = getattr(dss, name + "Sim")(s2)
+        y = (lo + hi) / 2
+        helper.setDistance(x)
+        helper2.setDistance(y)
+        acc.checks += 2
+        acc.ev("two-sensors-of-one-model-with-a-helper-each")
+        got = (helper.getDistance(), s.getDistance(), helper2.getDistance(), s2.getDistance())
+        if got[0] != x or abs(got[1] - x) > 1e-9 * x or got[2] != y or abs(got[3] - y) > 1e-9 * y:
+            acc.violation("C17/sim-inverse", f"{name}: two sensors with a helper each, set to {x!r} and {y!r}: helpers say {got[0]!r} / {got[2]!r}, sensors read {got[1]!r} / {got[3]!r}", case, {})
+            return
+        del helper2, s2
+        # a helper that is used once and dropped (a fixture that returns only the sensor), and one made just to look
+        z = lo + (hi - lo) * 0.6
+        getattr(dss, name + "Sim")(s).setDistance(z)
+        gc.collect()
+        peek = getattr(dss, name + "Sim")(s)
+        del peek
+        gc.collect()
+        acc.checks += 1
+        acc.ev("helper-dropped-while-the-sensor-is-in-use")
+        if abs(s.getDistance() - z) > 1e-9 * z:
+            acc.violation("C17/sim-inverse", f"{name}: a helper set {z!r} and was dropped; the sensor now reads {s.getDistance()!r}", case, {})
     except Exception as ex:  # noqa
         acc.violation("C17/raised", f"{name} (new object{', built through its older name' if via_alias else ''}): voltage {v!r}: {ex!r}", case, {"v": repr(v)})
     finally:
-        del s, sim, helper
+        s = sim = helper = s2 = helper2 = peek = None
         gc.collect()
 
 
